@@ -10,6 +10,7 @@
 //               =2 prototype void(const Key &, const Arg &) ArgumentPassingIncludeEvent
 //   -DVH_GETEVENT=1 (with VH_ARGMODE=1) the policy's getEvent returns a std::reference_wrapper to the key
 //               ARGUMENT instead of a copy: the dispatcher must copy the key before it forwards the arguments
+//   -DVH_GETEVENT=2 (with VH_ARGMODE=0) the policy's getEvent takes the listener argument by value
 //   -DVH_POLICY=0 default  1 SingleThreading  2 SpinLock
 //   -DVH_MAP=0 default map selection  1 force std::map  2 force std::unordered_map
 #include "common.h"
@@ -100,6 +101,10 @@ struct Policies
 	using Callback = Cb;
 #if defined(VH_GETEVENT) && VH_GETEVENT == 1
 	static std::reference_wrapper<const Key> getEvent(const Key & k, const Arg &) { return std::cref(k); }
+#elif defined(VH_GETEVENT) && VH_GETEVENT == 2
+	// takes the trailing argument BY VALUE: if the dispatcher hands getEvent its parameters as rvalues,
+	// this move-constructs `a` from the argument the listeners are to receive afterwards
+	static Key getEvent(const Key & k, Arg a) { (void)a; return k; }
 #endif
 #if VH_ARGMODE != 0
 	using ArgumentPassingMode = eventpp::ArgumentPassingIncludeEvent;
